@@ -215,7 +215,7 @@ var specs = []*PropSpec{
 		ID: "C18",
 		Cfg: Config{Property: "C18", CallUndefined: true, Assert: asserts("search", "all", "backward", "range", "gccheck"),
 			AuditOps: []string{"scan", "sweep", "gccheck"}, AuditEvery: 9, ExcludeKF: true},
-		Mix:       withMix(baseMix, func(m *Mix) { m.GC = 6; m.Range = 2; m.Scan = 1 }),
+		Mix:       withMix(baseMix, func(m *Mix) { m.GC = 10; m.Range = 2; m.Scan = 1; m.Move = 8; m.Overwrite = 6 }),
 		Families:  allFamilies,
 		Variants:  ValueTypes,
 		Templates: []string{"fanupdown", "longpath"},
